@@ -84,6 +84,18 @@ trait Read: Sized {
             && (*final(self)).seen() == (*old(self)).seen() + (*old(self)).rest().subrange(0, 4)
     { unimplemented!() }
     #[verifier::external_body]
+    fn read_u16_le(&mut self) -> (r: Result<u16, Error>)
+        ensures (*old(self)).src_id() == (*final(self)).src_id(), r is Ok ==> (*old(self)).rest().len() >= 2 && r->Ok_0 == un_le16((*old(self)).rest().subrange(0, 2))
+            && (*final(self)).rest() == (*old(self)).rest().skip(2)
+            && (*final(self)).seen() == (*old(self)).seen() + (*old(self)).rest().subrange(0, 2)
+    { unimplemented!() }
+    #[verifier::external_body]
+    fn read_u64_le(&mut self) -> (r: Result<u64, Error>)
+        ensures (*old(self)).src_id() == (*final(self)).src_id(), r is Ok ==> (*old(self)).rest().len() >= 8 && r->Ok_0 == un_le64((*old(self)).rest().subrange(0, 8))
+            && (*final(self)).rest() == (*old(self)).rest().skip(8)
+            && (*final(self)).seen() == (*old(self)).seen() + (*old(self)).rest().subrange(0, 8)
+    { unimplemented!() }
+    #[verifier::external_body]
     fn read_u128_le(&mut self) -> (r: Result<u128, Error>)
         ensures (*old(self)).src_id() == (*final(self)).src_id(), r is Ok ==> (*old(self)).rest().len() >= 16 && r->Ok_0 == un_le128((*old(self)).rest().subrange(0, 16))
             && (*final(self)).rest() == (*old(self)).rest().skip(16)
@@ -1001,6 +1013,136 @@ fn load_block(
     Ok(block)
 }
 //@ END
+
+// ---------------- blob frames (vlog/blob_file/reader.rs) ----------------
+/// xxhash_rust::xxh3::Xxh3 (same streaming contract as Xxh3Default)
+#[verifier::external_body]
+pub struct Xxh3 { p: u8 }
+impl Xxh3 {
+    pub uninterp spec fn fed(&self) -> Seq<u8>;
+    #[verifier::external_body] pub fn default() -> (r: Self) ensures r.fed() == Seq::<u8>::empty() { unimplemented!() }
+    #[verifier::external_body] pub fn update(&mut self, b: &Slice) ensures final(self).fed() == old(self).fed() + b@ { unimplemented!() }
+    #[verifier::external_body] pub fn digest128(&self) -> (r: u128) ensures r == hash128(self.fed()) { unimplemented!() }
+}
+pub const BLOB_HEADER_MAGIC: [u8; 4] = [b'B', b'L', b'O', b'B'];
+pub const BLOB_HEADER_LEN: usize = 38;   // 4 + 16 + 8 + 2 + 4 + 4 (src/vlog/blob_file/writer.rs)
+pub type UserKey = Slice;
+struct BlobMeta { compression: CompressionType }
+struct BlobInner { id: BlobFileId, meta: BlobMeta }
+struct BlobFile(Arc<BlobInner>);
+impl BlobFile { fn id(&self) -> (r: BlobFileId) ensures r == self.0.id { self.0.id } }
+
+//@ FROM src/vlog/blob_file/reader.rs :: - :: struct Reader
+//@ SUBST `< 'a >` ==> `<'a>`
+struct Reader<'a> {
+    blob_file: &'a BlobFile,
+    file: &'a File,
+}
+//@ END
+
+/// the stored frame of a blob is intact: magic, and the recorded xxh3-128 equals the hash of key bytes ++ payload bytes
+spec fn blob_frame_ok(frame: Seq<u8>, v: Seq<u8>) -> bool {
+    frame.len() >= 38
+    && frame.subrange(0, 4) == BLOB_HEADER_MAGIC@
+    && ({ let key_len = un_le16(frame.subrange(28, 30)) as int;   // the stored key length
+          frame.len() >= 38 + key_len && un_le128(frame.subrange(4, 20)) == hash128(frame.subrange(38, 38 + key_len) + v) })
+}
+
+impl<'a> Reader<'a> {
+//@ FROM src/vlog/blob_file/reader.rs :: impl < 'a > Reader < 'a > :: fn get :: OBL C10.9
+//@ SUBST `crate :: Result < UserValue >` ==> `Result<UserValue, Error>`
+//@ SUBST `& 'a [ u8 ]` ==> `&'a [u8]`
+//@ SUBST `debug_assert_eq ! ( $1 ) ;` ==> ``
+//@ SUBST `crate :: file :: read_exact` ==> `file_read_exact`
+//@ SUBST `Cursor :: new ( & value [ .. ] )` ==> `value.reader()`
+//@ SUBST `read_u128 :: < LittleEndian >` ==> `read_u128_le`
+//@ SUBST `read_u64 :: < LittleEndian >` ==> `read_u64_le`
+//@ SUBST `read_u16 :: < LittleEndian >` ==> `read_u16_le`
+//@ SUBST `read_u32 :: < LittleEndian >` ==> `read_u32_le`
+//@ SUBST `crate :: UserKey :: from_reader` ==> `Slice::from_reader`
+//@ SUBST `value . slice ( $1 .. )` ==> `value.slice_from($1)`
+//@ SUBST `xxhash_rust :: xxh3 :: Xxh3 :: default ( )` ==> `Xxh3::default()`
+    fn get(&self, key: &'a [u8], vhandle: &'a ValueHandle) -> /*+*/(r:/*-*/ Result<UserValue, Error>/*+*/)
+        requires vhandle.on_disk_size as int + 38 + key@.len() <= usize::MAX
+        ensures r is Ok ==> ({ let total = vhandle.on_disk_size as int + 38 + key@.len();
+            vhandle.offset + total <= self.file.content().len()
+            && ({ let frame = self.file.content().subrange(vhandle.offset as int, vhandle.offset + total);
+                  r->Ok_0@ == frame.skip(38 + key@.len() as int) && blob_frame_ok(frame, r->Ok_0@) }) })/*-*/
+    {
+        /*+*/let ghost klen = key@.len() as int;/*-*/
+        let add_size = (BLOB_HEADER_LEN as u64) + (key.len() as u64);
+
+        let value = file_read_exact(
+            self.file,
+            vhandle.offset,
+            (u64::from(vhandle.on_disk_size) + add_size) as usize,
+        )?;
+
+        let mut reader = value.reader();
+        /*+*/let ghost fr = value@;/*-*/
+
+        let mut magic = [0u8; 4];
+        reader.read_exact(&mut magic)?;
+
+        if magic != BLOB_HEADER_MAGIC {
+            return Err(Error::InvalidHeader("Blob"));
+        }
+
+        let expected_checksum = reader.read_u128_le()?;
+
+        let _seqno = reader.read_u64_le()?;
+        let key_len = reader.read_u16_le()?;
+
+        let real_val_len = reader.read_u32_le()?;
+
+        let _on_disk_val_len = reader.read_u32_le()? as usize;
+
+        let key = Slice::from_reader(&mut reader, key_len.into())?;
+
+        /*+*/proof {
+            assert(fr.subrange(0, 4) =~= magic@);
+            assert(fr.skip(4).subrange(0, 16) =~= fr.subrange(4, 20));
+            assert(fr.skip(4).skip(16).skip(8).subrange(0, 2) =~= fr.subrange(28, 30));
+            assert(fr.skip(4).skip(16).skip(8).skip(2).skip(4).skip(4).subrange(0, key_len as int) =~= fr.subrange(38, 38 + key_len));
+        }/*-*/
+        let raw_data = value.slice_from((add_size as usize));
+
+        {
+            let checksum = {
+                let mut hasher = Xxh3::default();
+                hasher.update(&key);
+                hasher.update(&raw_data);
+                hasher.digest128()
+            };
+
+            if expected_checksum != checksum {
+                return Err(Error::ChecksumMismatch {
+                    got: Checksum::from_raw(checksum),
+                    expected: Checksum::from_raw(expected_checksum),
+                });
+            }
+        }
+
+        let value = match &self.blob_file.0.meta.compression {
+            CompressionType::None => raw_data,
+        };
+
+        /*+*/proof {
+            let total = vhandle.on_disk_size as int + 38 + klen;
+            assert(vhandle.offset + total <= self.file.content().len());
+            assert(fr == self.file.content().subrange(vhandle.offset as int, vhandle.offset + total));
+            assert(value@ == fr.skip(38 + klen));
+            assert(fr.len() >= 38);
+            assert(fr.subrange(0, 4) == BLOB_HEADER_MAGIC@);
+            assert(key_len == un_le16(fr.subrange(28, 30)));
+            assert(expected_checksum == un_le128(fr.subrange(4, 20)));
+            assert(fr.len() >= 38 + key_len);
+            assert(expected_checksum == hash128(fr.subrange(38, 38 + key_len) + value@));
+        }/*-*/
+        Ok(value)
+    }
+//@ END
+}
 
 }
 fn main() {}
